@@ -1,4 +1,5 @@
 import RlModel.Lemmas.Scan
+import RlModel.Thm.C12
 /-!
 # C13 — a key-range scan returns exactly the rows in the range
 
@@ -137,12 +138,24 @@ theorem range_analysis_type_unsound :
 
 /-! ## The row-set iterator -/
 
+/-- The condition under which `next_batch_inner` ends a range scan after the current batch, as
+RE-EXTRACTED FROM THE SOURCE on every run (`Gen/RowSetStop.lean`; today `end_row_id == 0`), is
+sound: it only fires when some row of the batch already violates the upper bound. The seeded change
+`start_row_id >= end_row_id` (a batch wholly below the lower bound ends the scan) makes this theorem
+- and every range-scan theorem below, which depend on it - fail. -/
+theorem range_stop_sound : StopSound Gen.rangeStop := by
+  intro lo hi len hlen hlo hhi hstop
+  simp only [Gen.rangeStop, decide_eq_true_eq] at hstop
+  omega
+
+example : Gen.rangeStop 0 0 3 = true ∧ Gen.rangeStop 3 3 3 = false := by decide
+
 /-- Masks + early stop over ANY batching of a key-sorted stream (first scanned column = key)
 return exactly the live rows whose key is in range. -/
 theorem batches_range_scan_exact (k : Nat) (rg : KeyRange) (bs : List (List (Row × Bool)))
     (hs : SortedBy (keyCmp [⟨k, false⟩]) (bs.flatten.map (·.1))) :
     scanBatches k (some rg) bs = liveRows (bs.flatten.filter fun x => inRange rg (Row.at x.1 k)) :=
-  scanBatches_exact k rg bs (mono_lower_of_sorted k rg.lo _ hs) (mono_upper_of_sorted k rg.hi _ hs)
+  scanBatches_exact range_stop_sound k rg bs (mono_lower_of_sorted k rg.lo _ hs) (mono_upper_of_sorted k rg.hi _ hs)
 
 example : scanBatches 0 (some ⟨.incl (.i32 2), .excl (.i32 9)⟩)
     [[([.i32 1], true), ([.i32 2], false)], [([.i32 2], true), ([.i32 5], true)], [([.i32 9], true), ([.i32 9], true)]]
@@ -380,6 +393,23 @@ theorem guarded_range_scan_exact (t : TableMeta) (e : Expr) (k : Nat) (r : KeyRa
   obtain ⟨h0, _, hint, hlo, hhi⟩ := guard_implies_precondition t e k r han hg
   subst h0
   exact rowset_range_scan_exact rs cols r 0 rfl (head_of_table_order cols hcols hkin) hsorted (hwt 0 hint) hlo hhi hblocks
+
+/-- The same for every layout a write history can produce (`reachable_rowsets_sorted`): for a table
+keyed on its INT first column, any sequence of INSERTs, DELETEs and compaction passes, any observed
+block structure, every range the planner pushes is scanned exactly. Left as hypotheses: the typing
+invariant (INT columns hold INT values) and a block index that refers to stored rows. -/
+theorem reachable_range_scan_exact (t : TableMeta) (hpk : t.primary = [0]) (ops : List StoreOp)
+    (e : Expr) (k : Nat) (r : KeyRange) (cols : List Nat)
+    (han : analyzeRange e = some (k, r)) (hg : rangeGuard t e = true)
+    (hcols : TableOrder cols) (hkin : k ∈ cols)
+    (rs : RowSet) (hrs : rs ∈ (replayStore t.primary ops).1) (blocks : List (List Nat))
+    (hwt : WellTyped t { rs with blocks := blocks }) (hblocks : blocksOk { rs with blocks := blocks } = true) :
+    RangeScanExact { rs with blocks := blocks } cols r k := by
+  have h0 := (guard_implies_precondition t e k r han hg).1
+  subst h0
+  have hs := reachable_rowsets_sorted t.primary (by rw [hpk]; simp) ops rs hrs
+  rw [hpk] at hs
+  exact guarded_range_scan_exact t e 0 r _ cols han hg hcols hkin hwt (by simpa [ascKeys] using hs) hblocks
 
 example : rangeGuard { primary := [0], sortedByPk := true, intCols := [0, 1] }
     (.and (.cmp .gt (.col 0) (.const (.i32 1))) (.cmp .le (.col 0) (.const (.i32 5)))) = true := by decide
